@@ -225,7 +225,7 @@ def norm_kind(fbody, upto):
 NORM_COQ = {'wrap': 'if (i <? 0)%Z then (n + i)%Z else i',
             'wrap1': 'if (i <? 0)%Z then ((n + 1) + i)%Z else i',
             'none': 'i'}
-GUARD_COQ = {'oob': '((i <? 0) || (i >=? n))%Z', 'oob1': '((i <? 0) || (i >=? n + 1))%Z',
+GUARD_COQ = {'oob': 'orb (i <? 0)%Z (i >=? n)%Z', 'oob1': 'orb (i <? 0)%Z (i >=? n + 1)%Z',
              'empty': '(n =? 0)%Z'}
 
 
